@@ -32,7 +32,7 @@ from vlib.elf import Elf
 
 PROP = "C15"
 META = {
-    "ready": False,
+    "ready": True,
     "level": "model_checking",
     "technique": "TLA+ specification of fnmatch and of first-match placement (Glob.tla) enumerated by TLC; every enumerated (pattern, name) pair and rule list replayed through real links of wild and GNU ld, observed in the output ELF",
     "level_text": "TLC enumerates all patterns of the form literal-prefix (length 0..5) + up to 2 wildcard/class/escape/literal atoms + literal suffix against all names of length 1..5 over a 4-5 letter alphabet (about 1.4 million (pattern,name) pairs in quick), and all lists of 1..2 input-section descriptions from a pool with file patterns and KEEP against 16 (file,section) pairs; Match laws and the first-match law are model-checked; every case is linked by the real wild and by GNU ld 2.40 and the output section of every input section is observed in the ELF.",
